@@ -12,6 +12,74 @@ let str (s : G.string) : string =
     | G.String (c, r) -> Buffer.add_char b (char_of_ascii c); go r in
   go s; Buffer.contents b
 
+let rec pos_of_int (n : int) : G.positive =
+  if n = 1 then G.XH else if n land 1 = 0 then G.XO (pos_of_int (n lsr 1)) else G.XI (pos_of_int (n lsr 1))
+let n_of_int (n : int) : G.n = if n = 0 then G.N0 else G.Npos (pos_of_int n)
+let rec int_of_pos (p : G.positive) : int =
+  match p with G.XH -> 1 | G.XO q -> 2 * int_of_pos q | G.XI q -> 2 * int_of_pos q + 1
+let int_of_n (x : G.n) : int = match x with G.N0 -> 0 | G.Npos p -> int_of_pos p
+
+let ascii_of_char (c : char) : G.ascii =
+  let n = Char.code c in
+  let b i = (n lsr i) land 1 = 1 in
+  G.Ascii (b 0, b 1, b 2, b 3, b 4, b 5, b 6, b 7)
+let coq_string (s : string) : G.string =
+  let r = ref G.EmptyString in
+  for i = String.length s - 1 downto 0 do r := G.String (ascii_of_char s.[i], !r) done; !r
+
+let unhex (h : string) : string =
+  String.init (String.length h / 2) (fun i -> Char.chr (int_of_string ("0x" ^ String.sub h (2 * i) 2)))
+let hex_of (s : string) : string =
+  String.concat "" (List.init (String.length s) (fun i -> Printf.sprintf "%02x" (Char.code s.[i])))
+
+let c10_line (line : string) : unit =
+  match List.filter (fun w -> w <> "") (String.split_on_char ' ' line) with
+  | ["TABLES"] ->
+    List.iter (fun q ->
+      List.iteri (fun i w ->
+        match G.c10_project q w with
+        | Some x -> Printf.printf "%c %d %s %x\n" (if q then 'Q' else 'S') i (str w) (int_of_n x)
+        | None -> Printf.printf "%c %d %s NONE\n" (if q then 'Q' else 'S') i (str w)) (G.c10_table q)) [false; true];
+    (* named accessors, in the order the C++ driver prints them *)
+    let order = ["export_specifier"; "static_specifier"; "extern_specifier"; "mutable_specifier";
+                 "thread_local_specifier"; "register_specifier"; "inline_specifier"; "constexpr_specifier";
+                 "consteval_specifier"; "virtual_specifier"; "abstract_specifier"; "explicit_specifier";
+                 "friend_specifier"; "typedef_specifier"; "public_specifier"; "protected_specifier";
+                 "private_specifier"; "const_qualifier"; "volatile_qualifier"; "restrict_qualifier"] in
+    List.iter (fun name ->
+      let row = List.find_opt (fun (n, _) -> str n = name) G.c10_accessors in
+      let v = match row with
+        | Some (_, G.AccSpecifierWord w) -> G.c10_project false w
+        | Some (_, G.AccQualifierWord w) -> G.c10_project true w
+        | _ -> None in
+      match v with
+      | Some x -> Printf.printf "A %s %x\n" name (int_of_n x)
+      | None -> Printf.printf "A %s NONE\n" name) order
+  | ["ALL"; k] ->
+    let q = (k = "q") in
+    let n = List.length (G.c10_table q) in
+    for m = 0 to (1 lsl n) - 1 do
+      let u = G.c10_union q (n_of_int m) in
+      let d = G.c10_decomp q u in
+      Printf.printf "U %s %x %x %x %d\n" k m (int_of_n u) (int_of_n (G.c10_decomp_mask q u)) (List.length d)
+    done
+  | ["B"; k; a; b] ->
+    let q = (k = "q") in
+    let ma = int_of_string ("0x" ^ a) and mb = int_of_string ("0x" ^ b) in
+    let sa = G.c10_union q (n_of_int ma) and sb = G.c10_union q (n_of_int mb) in
+    let dm x = int_of_n (G.c10_decomp_mask q x) in
+    Printf.printf "B %s %x %x %x %x %x %d 1\n" k ma mb (dm (G.N.coq_lor sa sb)) (dm (G.N.coq_land sa sb))
+      (dm (G.N.coq_lxor sa sb)) (if G.implies sa sb then 1 else 0)
+  | ["R"; k; h] ->
+    let q = (k = "q") in
+    (match G.c10_project q (coq_string (unhex h)) with
+     | Some x -> Printf.printf "R %s %s %x\n" k h (int_of_n x)
+     | None -> Printf.printf "R %s %s refused\n" k h)
+  | _ -> ()
+
+let iter_lines f =
+  try while true do f (input_line stdin) done with End_of_file -> ()
+
 let join l = match l with [] -> "-" | _ -> String.concat "," (List.map str l)
 
 let () =
@@ -20,4 +88,5 @@ let () =
     List.iter (fun (name, (cat, (acc, (sinks, views)))) ->
       Printf.printf "%s cat=%s full=%s sinks=%s views=%s\n" (str name) (str cat) (join acc) (join sinks) (join views))
       G.c06_rows
+  | [| _; "c10" |] -> iter_lines c10_line
   | _ -> prerr_endline "usage: gen_driver <mode>"; exit 2
